@@ -4,12 +4,14 @@
   Compression is off in this file (Plain reader); see Model/Compress.lean for the selection logic.
 -/
 import Atto.Model.Body
+import Atto.Model.Compress
 namespace Atto
 
 structure Resp where
   status : Nat
   headers : Headers          -- as exposed to the caller (Transfer-Encoding removed)
   rawHeaders : Headers       -- as parsed
+  coding : Coding            -- decoder selected by CompressedReader::new
   body : Body
   deriving Repr
 
@@ -20,7 +22,7 @@ def parseResponse (m : Method) (maxHeaders cap : Nat) (t : Transport) : RR Resp 
   | (.ok (status, hs), r1) =>
     (match chooseFraming m status hs with
      | .error e => .err e
-     | .ok f => .ok { status := status, headers := hs.remove nameTE, rawHeaders := hs, body := Body.new f r1 })
+     | .ok f => .ok { status := status, headers := hs.remove nameTE, rawHeaders := hs, coding := selectCoding m hs, body := Body.new f r1 })
   | (.err e, _) => .err e
   | (.blocked, _) => .blocked
   | (.panic, _) => .panic
